@@ -11,6 +11,7 @@ From MV Require Import Dir.DirModel.
 From MV Require Import Dir.DirProofs.
 From MV Require Import Opt.OptModel.
 From MV Require Import Opt.OptComments.
+From MV Require Import Opt.YamlSpec.
 From MV Require Import Dir.DirTokenizer.
 Import ListNotations.
 
@@ -143,24 +144,28 @@ Proof. exact styles_interchangeable. Qed.
 Print Assumptions C08_styles_interchangeable.
 
 (* The same with the tokenizer oracle instantiated by the C07 model (Opt/OptModel.v options_to_items with the
-   has_comments flag of Opt/OptComments.v).  PARTIAL: the premise about the tokenizer is now two statements about that
-   model - a final newline does not change the pairs, nor the comments flag, of this block of single-line pairs.
-   Missing to drop them: C07's lemma final_newline_optional (requested from the C07 builder, in progress) and the
-   same invariance for has_comments (not planned there; checked by their correspondence and by search here). *)
+   has_comments flag of Opt/OptComments.v).  The premise "a final newline does not change the pairs" is now PROVED from
+   C07_final_newline_optional for every block that is the text of a well-formed C07 block ending in a key without value
+   or with a flow scalar ([c07_block_text]).  PARTIAL in one point only: the invariance of the comments FLAG under the
+   final newline stays a premise (no theorem for it in C07; compared by their correspondence and by search here). *)
 Theorem C08_styles_interchangeable_c07_partial :
   forall yaml_load sg first_line c1 c2 d0 d1 kvs B line validate additional,
   has_option_spec sg = true ->
   kvs <> [] -> Forall kv_line kvs ->
   splitlines c1 = map (fun l => c_colon :: l) kvs ++ B -> is_colon_line (hd_line B) = false ->
   splitlines c2 = d0 :: kvs ++ d1 :: B -> is_dash_line d0 = true -> is_dash_line d1 = true ->
-  options_to_items (join_nl kvs ++ nl) = options_to_items (join_nl kvs) ->
+  c07_block_text (join_nl kvs) ->
   has_comments (join_nl kvs ++ nl) = has_comments (join_nl kvs) ->
   yaml_load (join_nl kvs ++ nl) = yaml_load (join_nl kvs) ->
   res_rel (result_rel sg first_line 2)
           (parse_directive_text c07_tokenize yaml_load sg first_line c1 line validate additional)
           (parse_directive_text c07_tokenize yaml_load sg first_line c2 line validate additional).
-Proof. exact styles_interchangeable_c07. Qed.
+Proof. exact styles_interchangeable_c07_block. Qed.
 Print Assumptions C08_styles_interchangeable_c07_partial.
+
+(* non-vacuity of [c07_block_text]: the lines "class: x" / "name: y" *)
+Example C08_c07_block_example : c07_block_text (join_nl ex_kvs) /\ Forall kv_line ex_kvs.
+Proof. exact ex_kvs_block_text. Qed.
 
 (* The splitter as it was before fix 601d16e (body re-joined and re-split) does not meet C08_body_is_suffix. *)
 Theorem C08_rejoin_refuted :
